@@ -249,6 +249,14 @@ func (sc *collection) doBuild(ctx context.Context) (Provider, error) {
 		}
 	}
 
+	if err := sc.validateDependencies(allDescriptors); err != nil {
+		return nil, &BuildError{
+			Phase:   "validation",
+			Details: "dependency validation failed",
+			Cause:   err,
+		}
+	}
+
 	// Phase 4: Create provider with fast ID generation
 	// Count void-return scoped descriptors for pre-allocation
 	voidCount := 0
@@ -804,6 +812,39 @@ func (c *collection) validateLifetimes() error {
 		for _, descriptor := range descriptors {
 			if err := checkDescriptor(descriptor); err != nil {
 				return err
+			}
+		}
+	}
+
+	return nil
+}
+
+// validateDependencies ensures that every required dependency of every registered
+// service, whatever its lifetime, is itself registered or is one of the built-in
+// injectables. Optional dependencies and (possibly empty) groups are always satisfiable.
+func (c *collection) validateDependencies(descriptors []*Descriptor) error {
+	for _, descriptor := range descriptors {
+		if descriptor == nil {
+			continue
+		}
+
+		for _, dep := range descriptor.Dependencies {
+			if dep == nil || dep.Optional || dep.Group != "" {
+				continue
+			}
+
+			if dep.Key == nil {
+				if _, isBuiltin := reservedTypes[dep.Type]; isBuiltin {
+					continue
+				}
+			}
+
+			if _, ok := c.services[TypeKey{Type: dep.Type, Key: dep.Key}]; !ok {
+				return &ResolutionError{
+					ServiceType: dep.Type,
+					ServiceKey:  dep.Key,
+					Cause:       ErrServiceNotFound,
+				}
 			}
 		}
 	}
